@@ -209,6 +209,22 @@ def judgeMisc (op : String) (out : List String) : P Bool := do
     expectToks op (strQ12 e) out
     expectToks "pairing_sum (generated model)" (strQ12 (Impl.pairingProduct as ps)) out
     pure true
+  | "pairing_sum_long" =>
+    -- long lists of pairs (aᵢ·G1gen, bᵢ·G2gen): the product is e(g1,g2)^(Σ aᵢbᵢ) BY BILINEARITY of the pairing (the named
+    -- hypothesis H-bilinear; used here only to direct the search for failing inputs to list lengths beyond 64 / 255, where
+    -- evaluating the textbook pairing pair by pair is out of reach of the judge)
+    let n ← nextNat
+    let rec goL (k : Nat) (acc : Nat) : P Nat :=
+      match k with
+      | 0 => pure acc
+      | k+1 => do
+        let t ← next
+        match ((t.drop 1).toString.splitOn ",").map String.toNat? with
+        | [some a, some b] => goL k ((acc + a * b) % r)
+        | _ => throw "pairing_sum_long: bad token"
+    let e ← goL n 0
+    expectToks op (strQ12 (npow gtGen e)) out
+    pure true
   | "prepare" =>
     let qq ← curveG2.rdA
     let pr := Impl.prepare (affOf qq)
